@@ -3,6 +3,7 @@
 EXTENDS I_IPAM
 H2 == [c \in {"c1", "c2"} |-> IF c = "c1" THEN "h1" ELSE "h2"]          \* two clients on two hosts
 H3 == [c \in {"c1", "c2", "c3"} |-> IF c = "c1" THEN "h1" ELSE IF c = "c2" THEN "h2" ELSE "h1"]   \* c3 shares h1
+H3d == [c \in {"c1", "c2", "c3"} |-> IF c = "c1" THEN "h1" ELSE IF c = "c2" THEN "h2" ELSE "h3"]          \* three hosts
 H2same == [c \in {"c1", "c2"} |-> "h1"]                                   \* two processes on one host
 H1 == [c \in {"c1"} |-> "h1"]
 AllOps == {"assign", "release", "relh", "relaff"}
